@@ -66,7 +66,7 @@ def offDeadline (m : Mem) (sec : Int) (k : Key) : Prop := ∀ n, m.lookup k = so
 /-- the comparison domain of the property, per call -/
 def admOp (s : Sys) : Op → Prop
   | .set k _ o =>
-    0 < o.ttl.getD s.mem.dttl ∧ offDeadline s.mem (secOf s.clock) k ∧
+    ((o.keepTTL = true ∧ o.mustNotExist = false) ∨ 0 < o.ttl.getD s.mem.dttl) ∧ offDeadline s.mem (secOf s.clock) k ∧
     (o.keepTTL = true → o.mustNotExist = false →
       ∃ n, s.mem.lookup k = some n ∧ expired (secOf s.clock) n.dl = false) ∧
     (s.mem.lookup k = none → s.mem.live.length < s.mem.size)
@@ -243,7 +243,7 @@ theorem agree_set_absent {c : Cfg} (hc : Proved c) {m0 : Mem} {r : Rds} {clock :
 
 theorem agree_set {c : Cfg} (hc : Proved c) {m : Mem} {r : Rds} {clock : Nat} {k : Key} (v : Val) {o : SetOpt}
     (hrel : ∀ k', RelK (m.lookup k') (rFind k' r.store)) (hd : r.dttl = m.dttl) (hb : Bounded m)
-    (httl : 0 < o.ttl.getD m.dttl) (hoff : offDeadline m (secOf clock) k)
+    (httl : (o.keepTTL = true ∧ o.mustNotExist = false) ∨ 0 < o.ttl.getD m.dttl) (hoff : offDeadline m (secOf clock) k)
     (hkeep : o.keepTTL = true → o.mustNotExist = false →
       ∃ n, m.lookup k = some n ∧ expired (secOf clock) n.dl = false)
     (hroom : m.lookup k = none → m.live.length < m.size) :
@@ -252,13 +252,14 @@ theorem agree_set {c : Cfg} (hc : Proved c) {m : Mem} {r : Rds} {clock : Nat} {k
     (r.set c clock k v o).1.dttl = r.dttl := by
   have hunit : c.rdsUnit = .seconds := hc.2.2
   have hpurge : c.setExpiry = .purge := hc.1
-  have hnp : ¬ (o.ttl.getD m.dttl ≤ 0) := by omega
-  obtain ⟨f1, f2, _⟩ := fmt_pos _ httl
+  have pos_of : ¬ (o.keepTTL = true ∧ o.mustNotExist = false) → 0 < o.ttl.getD m.dttl := fun h => httl.resolve_left h
   rcases live_agree (hrel k) hoff with ⟨hl, hr⟩ | ⟨n, e, hl, hf, he, hr⟩ | ⟨n, e, hl, hf, he, hr, hv, hdl⟩
   · -- absent
     have hp : m.preSet c (secOf clock) k = m := by simp only [Mem.preSet, hpurge, purge_absent hl]
     simp only [Mem.set, hp]
-    apply agree_set_absent hc v hl (by have := hroom hl; omega) (fun k' _ => hrel k') hr hd httl
+    have hpos : 0 < o.ttl.getD m.dttl := pos_of (fun ⟨hk, hm⟩ => by
+      obtain ⟨n, hn, _⟩ := hkeep hk hm; rw [hl] at hn; cases hn)
+    apply agree_set_absent hc v hl (by have := hroom hl; omega) (fun k' _ => hrel k') hr hd hpos
     intro hk
     cases hm : o.mustNotExist
     · obtain ⟨n, hn, _⟩ := hkeep hk hm; rw [hl] at hn; cases hn
@@ -272,9 +273,12 @@ theorem agree_set {c : Cfg} (hc : Proved c) {m : Mem} {r : Rds} {clock : Nat} {k
       split at this
       · rename_i y hy; rw [hy, this]
       · cases this
+    have hpos : 0 < o.ttl.getD m.dttl := pos_of (fun ⟨hk, hm⟩ => by
+      obtain ⟨n', hn', he'⟩ := hkeep hk hm
+      rw [hl] at hn'; cases hn'; rw [he] at he'; cases he')
     apply agree_set_absent hc v (lookup_removeKey_self m k)
       (by have := eraseKey_length_lt hlive; have := hb.2; simp only [Mem.removeKey]; omega)
-      (fun k' e' => by rw [lookup_removeKey_ne m e']; exact hrel k') hr hd httl
+      (fun k' e' => by rw [lookup_removeKey_ne m e']; exact hrel k') hr hd hpos
     intro hk
     cases hm : o.mustNotExist
     · obtain ⟨n', hn', he'⟩ := hkeep hk hm
@@ -288,6 +292,9 @@ theorem agree_set {c : Cfg} (hc : Proved c) {m : Mem} {r : Rds} {clock : Nat} {k
     cases hm : o.mustNotExist
     · cases hk : o.keepTTL
       · -- overwrite with a fresh deadline
+        have hpos : 0 < o.ttl.getD m.dttl := pos_of (fun ⟨h1, _⟩ => by rw [hk] at h1; cases h1)
+        have hnp : ¬ (o.ttl.getD m.dttl ≤ 0) := by omega
+        obtain ⟨f1, _, _⟩ := fmt_pos _ hpos
         simp only [Mem.setCore, hl, hm, hk, Bool.false_eq_true, if_false, setTtl, deadline, hnp,
           Rds.set, hd, durOf, hunit, f1, rSet, decide_false, Bool.false_and, hr]
         refine ⟨by trivial, ?_, by trivial⟩
@@ -308,6 +315,9 @@ theorem agree_set {c : Cfg} (hc : Proved c) {m : Mem} {r : Rds} {clock : Nat} {k
         · rfl
         · exact hdl
     · -- must-not-exist: both report already-exists, nothing changes
+      have hpos : 0 < o.ttl.getD m.dttl := pos_of (fun ⟨_, h2⟩ => by rw [hm] at h2; cases h2)
+      have hnp : ¬ (o.ttl.getD m.dttl ≤ 0) := by omega
+      obtain ⟨_, f2, _⟩ := fmt_pos _ hpos
       simp only [Mem.setCore, hl, hm, if_true, Rds.set, hd, durOf, hunit, f2, rSet, hnp, decide_false,
         Bool.true_and, hr, Option.isSome_some, Bool.false_eq_true, if_false]
       exact ⟨by trivial, hrel, by trivial⟩
@@ -395,7 +405,7 @@ def offDeadlineB (m : Mem) (sec : Int) (k : Key) : Bool :=
 
 def admOpB (s : Sys) : Op → Bool
   | .set k _ o =>
-    decide (0 < o.ttl.getD s.mem.dttl) && offDeadlineB s.mem (secOf s.clock) k &&
+    ((o.keepTTL && !o.mustNotExist) || decide (0 < o.ttl.getD s.mem.dttl)) && offDeadlineB s.mem (secOf s.clock) k &&
     (!(o.keepTTL && !o.mustNotExist) ||
       (match s.mem.lookup k with
         | some n => !expired (secOf s.clock) n.dl
@@ -421,7 +431,7 @@ theorem admOpB_sound {s : Sys} {op : Op} (h : admOpB s op = true) : admOp s op :
   | set k v o =>
     simp only [admOpB, Bool.and_eq_true, Bool.or_eq_true, decide_eq_true_eq] at h
     obtain ⟨⟨⟨h1, h2⟩, h3⟩, h4⟩ := h
-    refine ⟨h1, offDeadlineB_sound h2, ?_, ?_⟩
+    refine ⟨h1.imp (fun ⟨a, b⟩ => ⟨a, by simpa using b⟩) id, offDeadlineB_sound h2, ?_, ?_⟩
     · intro hk hm
       rcases h3 with h3 | h3
       · simp [hk, hm] at h3
